@@ -42,6 +42,10 @@ type distEnv struct {
 	bases           []chain.Key
 	vesting         chain.Key
 	blocked         string
+	// occupiedModule names a module account of the configuration whose address holds a base
+	// account (put there through a grant before anything used the module account): paying it
+	// fails like any other refused transfer, the coins stay booked
+	occupiedModule string
 	mainAddr        string
 	keeper          distkeeper.Keeper
 	model           *model.Distributor
@@ -89,6 +93,15 @@ func (e *distEnv) start(sds []disttypes.SubDistributor, states []*disttypes.Stat
 		return err
 	}
 	e.n = n
+	if e.occupiedModule != "" {
+		ak := n.App.AccountKeeper
+		ctx := n.Ctx()
+		if addr := authtypes.NewModuleAddress(e.occupiedModule); ak.GetAccount(ctx, addr) == nil {
+			ak.SetAccount(ctx, ak.NewAccountWithAddress(ctx, addr))
+		} else {
+			e.occupiedModule = ""
+		}
+	}
 	e.keeper = n.App.CfedistributorKeeper
 	e.model = model.NewDistributor()
 	e.receipts = map[string]model.Coins{}
@@ -225,6 +238,9 @@ func (e *distEnv) inflow(r *rand.Rand) (total int) {
 			// module accounts are paid by name so that they are materialised as module accounts
 			err = e.n.App.BankKeeper.SendCoinsFromAccountToModule(e.n.Ctx(), e.faucet.Addr, disttypes.DistributorMainAccount, coins)
 		case model.KModule:
+			if t.s.ID == e.occupiedModule {
+				continue // nothing can be paid in by name, and nobody would pay the squatter
+			}
 			err = e.n.App.BankKeeper.SendCoinsFromAccountToModule(e.n.Ctx(), e.faucet.Addr, t.s.ID, coins)
 		default:
 			err = e.n.Send(e.faucet.Addr, to, coins)
@@ -290,7 +306,9 @@ func (e *distEnv) stepLazy(k distkeeper.Keeper, preds func() (func(string) bool,
 	// model
 	payoutFails, sweepFails := preds()
 	if payoutFails == nil {
-		payoutFails = func(key string) bool { return key == model.KBase+"-"+e.blocked }
+		payoutFails = func(key string) bool {
+			return key == model.KBase+"-"+e.blocked || (e.occupiedModule != "" && key == model.KModule+"-"+e.occupiedModule)
+		}
 	}
 	e.model.Block(e.subs, e.addrOf, payoutFails, sweepFails)
 	if os.Getenv("DIST_DEBUG") != "" {
